@@ -306,6 +306,9 @@ impl CompFlags {
             }
             k = spec_k;
         }
+        // As in the Java implementation, zetak also applies to the default
+        // residual code
+        cf.residuals = Codes::Zeta(k);
         if let Some(comp_flags) = map.get("compressionflags") {
             if !comp_flags.is_empty() {
                 for flag in comp_flags.split('|') {
